@@ -14,6 +14,7 @@ import (
 	"regexp"
 	"sort"
 	"strings"
+	"sync"
 	"syscall"
 	"time"
 
@@ -225,6 +226,13 @@ type procResult struct {
 	ExitCode int
 	Files    map[string][]byte // files found in the log directory after exit
 	TimedOut bool
+	// the program closed its standard input while it was still running (a write to
+	// the pipe failed after this many bytes)
+	StdinRefusedAfter int
+	StdinRefused      bool
+	// bytes written to its input before the scripted silence, and bytes that had come
+	// out of it when the silence ended
+	InBeforeSilence, OutAtSilenceEnd int
 }
 
 // runAppProcess runs a real application binary built from the current tree.
@@ -243,6 +251,9 @@ func runAppProcess(c *child.Ctx, bin string, args []string, stdin []byte, k appC
 	}
 	cmd.Env = append(cmd.Env, extraEnv...)
 	var res procResult
+	var outMu sync.Mutex
+	exited := make(chan struct{})
+	refused := make(chan struct{})
 	var stderr bytes.Buffer
 	cmd.Stderr = &stderr
 	outR, outW, _ := os.Pipe()
@@ -251,7 +262,7 @@ func runAppProcess(c *child.Ctx, bin string, args []string, stdin []byte, k appC
 		// a small pipe: the application's writes block until the monitor reads
 		syscall.Syscall(syscall.SYS_FCNTL, outW.Fd(), 1031 /* F_SETPIPE_SZ */, 4096)
 	}
-	var inW *os.File
+	var inW, inR *os.File
 	if k.StdinMode == "file" {
 		p := filepath.Join(dir, "stdin.bin")
 		os.WriteFile(p, stdin, 0644)
@@ -259,10 +270,8 @@ func runAppProcess(c *child.Ctx, bin string, args []string, stdin []byte, k appC
 		cmd.Stdin = f
 		defer f.Close()
 	} else {
-		var inR *os.File
 		inR, inW, _ = os.Pipe()
 		cmd.Stdin = inR
-		defer inR.Close()
 	}
 	if err := cmd.Start(); err != nil {
 		res.Stderr = err.Error()
@@ -270,13 +279,22 @@ func runAppProcess(c *child.Ctx, bin string, args []string, stdin []byte, k appC
 		return res
 	}
 	outW.Close()
+	if inR != nil {
+		// the program holds the only read end now: if it closes its standard input our
+		// writes fail instead of blocking for ever
+		inR.Close()
+	}
 	if inW != nil {
 		go func() {
 			r := ref.NewRand(uint64(k.ID)*131 + 7)
 			data := stdin
 			for nchunks := 0; len(data) > 0; nchunks++ {
 				if k.SilenceMs > 0 && nchunks == k.SilenceAfterChunks && nchunks > 0 {
+					res.InBeforeSilence = len(stdin) - len(data)
 					sleepTicking(time.Duration(k.SilenceMs) * time.Millisecond)
+					outMu.Lock()
+					res.OutAtSilenceEnd = len(res.Stdout)
+					outMu.Unlock()
 				}
 				n := k.Chunk
 				if n <= 0 {
@@ -285,7 +303,16 @@ func runAppProcess(c *child.Ctx, bin string, args []string, stdin []byte, k appC
 				if n > len(data) {
 					n = len(data)
 				}
-				inW.Write(data[:n])
+				if _, werr := inW.Write(data[:n]); werr != nil {
+					// a program that has ended (or is ending) is judged by its exit, not here
+					select {
+					case <-exited:
+					case <-time.After(2 * time.Second):
+						res.StdinRefused, res.StdinRefusedAfter = true, len(stdin)-len(data)
+						close(refused)
+					}
+					break
+				}
 				data = data[n:]
 				if k.ReaderUs > 0 && r.Chance(1, 3) {
 					time.Sleep(time.Duration(r.Intn(k.ReaderUs)+1) * time.Microsecond)
@@ -307,7 +334,9 @@ func runAppProcess(c *child.Ctx, bin string, args []string, stdin []byte, k appC
 		}
 		for {
 			n, err := outR.Read(buf)
+			outMu.Lock()
 			res.Stdout = append(res.Stdout, buf[:n]...)
+			outMu.Unlock()
 			tick()
 			if k.StdoutMode == "slow" && n > 0 {
 				time.Sleep(300 * time.Microsecond)
@@ -319,9 +348,28 @@ func runAppProcess(c *child.Ctx, bin string, args []string, stdin []byte, k appC
 		close(outDone)
 	}()
 	waitDone := make(chan error, 1)
-	go func() { waitDone <- cmd.Wait() }()
+	go func() { err := cmd.Wait(); close(exited); waitDone <- err }()
+	patience := 90*time.Second + time.Duration(k.SilenceMs)*time.Millisecond
+	var err error
+	finished := false
 	select {
-	case err := <-waitDone:
+	case err = <-waitDone:
+		finished = true
+	case <-refused:
+		// the verdict is already known; give the program a moment to end by itself
+		patience = 3 * time.Second
+	case <-time.After(patience):
+		patience = 0
+	}
+	if !finished && patience > 0 {
+		select {
+		case err = <-waitDone:
+			finished = true
+		case <-time.After(patience):
+		}
+	}
+	switch {
+	case finished:
 		if err != nil {
 			if ee, ok := err.(*exec.ExitError); ok {
 				res.ExitCode = ee.ExitCode()
@@ -329,7 +377,7 @@ func runAppProcess(c *child.Ctx, bin string, args []string, stdin []byte, k appC
 				res.ExitCode = -1
 			}
 		}
-	case <-time.After(90*time.Second + time.Duration(k.SilenceMs)*time.Millisecond):
+	default:
 		res.TimedOut = true
 		cmd.Process.Signal(syscall.SIGQUIT)
 		select {
